@@ -1470,6 +1470,37 @@ fn main() {
             }
         }
     }
+    // ---- replay of the Lean witness `order_dependent_with_equal_ids` on the real code -------------------------
+    // a segment given together with a copy that has the same hop interfaces (same PathSegment::id()) but other
+    // MACs: the sort of get_paths ties, the surviving path depends on hash-map iteration order (fresh RandomState
+    // per HashMap::new()), so repeated identical calls / the two input orders disagree.
+    if prop == "C04" && args.replay.is_none() {
+        let mk = |m: u8| MSeg {
+            ts: 100,
+            segid: 7,
+            ents: vec![
+                MEnt { ia: ia(1, 3), mtu: 1500, imtu: 0, hop: MHop { exp: 63, ing: 0, eg: 31, mac: [m, 1, 0, 0, 0, 0] }, peers: vec![] },
+                MEnt { ia: ia(1, 1), mtu: 9000, imtu: 1300, hop: MHop { exp: 63, ing: 11, eg: 0, mac: [m, 2, 0, 0, 0, 0] }, peers: vec![] },
+            ],
+        };
+        let (a, b) = (mk(0), mk(1));
+        let c1 = Case { kind: "probe-equal-ids".into(), src: ia(1, 1), dst: ia(1, 3), cores: vec![], noncores: vec![a.clone(), b.clone()], topo: None };
+        let c2 = Case { noncores: vec![b, a], ..c1.clone() };
+        let mut outs = BTreeSet::new();
+        for _ in 0..60 {
+            outs.insert(impl_string(&run_impl(&c1)));
+            outs.insert(impl_string(&run_impl(&c2)));
+            rep.evaluations += 2;
+        }
+        rep.hit_n("probe equal-segment-ids: distinct outputs over 120 identical/reordered calls", outs.len() as u64);
+        if outs.len() > 1 {
+            rep.spec_fail(
+                "C04:order-independent:equal-segment-ids",
+                "two segments with the same hop interfaces (same PathSegment::id()) but different MACs: repeated identical calls and the two input orders return different paths (the solution sort ties, hash-map iteration order decides)",
+                json!({"case": case_json(&c1), "distinct_outputs": outs.iter().collect::<Vec<_>>()}),
+            );
+        }
+    }
     rep.hit_n("max combine() wall time [ms]", (max_us / 1000) as u64);
     rep.hit_n("max candidate solutions", max_cands);
     if cases.iter().any(|c| c.topo.is_some()) {
